@@ -425,6 +425,27 @@ def run(ck):
           "chunk.reset() after every Complete/Final chunk, none after Incomplete" if not bad else
           "line %s is reached after a completed chunk without chunk.reset()" % bad[0].get("l"))
 
+    # ---------------- R7: what the body routines skip without looking is known to be buffered ----------------
+    ck.rule("C01-R7", "B guard dominates sink (symbolic amounts)",
+            "in the incremental body routines (BodyStep::parseContentLength, Chunk::parse and their helpers) a cursor.advance(n) whose "
+            "result is not looked at is covered by a test that establishes n bytes are buffered (remaining() >= the sum of what is "
+            "skipped after the test, the eol() edge for a CRLF, or n = min(remaining, ..)): an uncovered one silently does nothing "
+            "when a read ends inside what it skips, and the bytes are then parsed as something else", 5)
+    breg = []
+    for root_ in (pcl, cp):
+        for g_ in lib.region(prog, root_, within=lambda g_: g_.cls == cp.cls or g_.cls == pcl.cls):
+            if g_.id not in {x.id for x in breg} and g_.id not in getattr(root_, "inlined_funcs", ()):
+                breg.append(g_)
+    n7 = 0
+    for g_ in breg:
+        for c_, ok_, why_ in lib.unchecked_advances(
+                g_, lambda e: (e.get("callee") or "") == CUR + "advance",
+                lambda d_: strip_tmpl(d_.get("icall") or "") == CUR + "remaining" or re.sub(r"\s+", "", (d_.get("init") or {}).get("t") or "").endswith(".remaining()"),
+                None):
+            n7 += 1
+            ck.ob("C01-R7", "%s/advance(%s)@%s" % (g_.base.replace(PR, "") if not g_.is_lambda else "lambda", (c_.get("args") or [{}])[0].get("t"), c_.get("l")), ok_, c_.loc, g_, why_)
+    ck.require(n7 >= 5, "unchecked advance() calls in the body routines: %d" % n7)
+
     # ---------------- R4 ----------------
     for f in prog.find("Pistache::ArrayStreamBuf::feed", 1):
         grow = [e for e in f.events("call") if (e.get("callee") or "") in ("std::back_inserter", "std::inserter") and strip_tmpl((e["args"][0].get("f") or "")).endswith("ArrayStreamBuf::bytes")]
